@@ -58,6 +58,10 @@ Inductive cb := CbSrcRead | CbWrap | CbUnwrap | CbConsume.
 Inductive instr :=
 | IGet                                  (* buf := BufPool.Get() *)
 | IPut                                  (* BufPool.Put(buf) (deferred: the function returns) *)
+| IPutKeep                              (* an explicit BufPool.Put(buf) in the middle of the function:
+                                           the local variable still points to the buffer (not in
+                                           the tree; an error path that also has the deferred Put
+                                           releases the buffer twice) *)
 | IWrite (off : nat) (data : list N)    (* in.Read(buf[off:..]) delivered [data]; buf[0] = carryover *)
 | IView (x : vname) (off len : nat)     (* x = buf[off:off+len] *)
 | ICopy (x : vname) (off len : nat)     (* x = bytes.Clone(buf[off:off+len]) *)
@@ -132,6 +136,12 @@ Definition step (s : state) (e : event) : option state :=
           match cur o with
           | Some b => Some (mkS (heap s) (b :: pool s) (next s)
                                 (upd (ops s) i (mkO rest None 0 (vman o) (vmac o) (obs o))))
+          | None => None
+          end
+      | IPutKeep =>
+          match cur o with
+          | Some b => Some (mkS (heap s) (b :: pool s) (next s)
+                                (upd (ops s) i (mkO rest (Some b) (init o) (vman o) (vmac o) (obs o))))
           | None => None
           end
       | IWrite off data =>
@@ -321,6 +331,7 @@ Fixpoint safe (held : bool) (ini : nat) (am ac : aview) (p : list instr) : bool 
       match ins with
       | IGet => negb held && negb (is_alias am) && negb (is_alias ac) && safe true 0 am ac rest
       | IPut => held && negb (is_alias am) && negb (is_alias ac) && safe false 0 am ac rest
+      | IPutKeep => false
       | IWrite off data => held && (off <=? ini) && safe held (Nat.max ini (off + length data)) am ac rest
       | IView x off len =>
           held && (off + len <=? ini)
@@ -513,6 +524,7 @@ Definition zero_prefix (h : content) (n : nat) : content := fun j => if j <? n t
 Inductive bevent :=
 | BGet (t : nat) (capacity : nat) (c : option bufid) (* c: the pooled array sync.Pool hands out *)
 | BAppend (t : nat) (data : list N)                  (* append within capacity, else reallocate *)
+| BResize (t : nat) (n : nat)                        (* sp.Resize(slice, n) *)
 | BPut (t : nat).
 
 Definition has_buf (b : bufid) (sl : slice) : bool := sl_buf sl =? b.
@@ -552,6 +564,20 @@ Definition bstep (mincap : nat) (s : bstate) (e : bevent) : option bstate :=
                       (upd (b_held s) t (Some (mkSl (b_next s) (sl_len sl + length data)
                                                      (2 * (sl_len sl + length data))))))
       end
+  | BResize t n =>
+      match b_held s t with
+      | None => None
+      | Some sl =>
+          if n <? sl_cap sl
+          then (* return orig[0:size]: whatever the array holds up to n becomes visible *)
+            Some (mkB (b_heap s) (b_pool s) (b_next s)
+                      (upd (b_held s) t (Some (mkSl (sl_buf sl) n (sl_cap sl)))))
+          else (* temp := make([]byte, size, max(size, cap*2)); copy(temp, orig) *)
+            let old := rd (b_heap s (sl_buf sl)) 0 (sl_len sl) in
+            Some (mkB (upd (b_heap s) (b_next s) (wr (fun _ => 0%N) 0 old))
+                      (b_pool s) (S (b_next s))
+                      (upd (b_held s) t (Some (mkSl (b_next s) n (Nat.max n (2 * sl_cap sl))))))
+      end
   | BPut t =>
       match b_held s t with
       | None => None
@@ -559,10 +585,26 @@ Definition bstep (mincap : nat) (s : bstate) (e : bevent) : option bstate :=
       end
   end.
 
+(* a Resize that does not shrink the caller's slice *)
+Definition grows (s : bstate) (e : bevent) : Prop :=
+  match e with
+  | BResize t n => match b_held s t with Some sl => sl_len sl <= n | None => True end
+  | _ => True
+  end.
+
 Fixpoint brun (mincap : nat) (s : bstate) (es : list bevent) : option bstate :=
   match es with
   | [] => Some s
   | e :: es' => match bstep mincap s e with Some s' => brun mincap s' es' | None => None end
+  end.
+
+(* schedules in which no caller shrinks its slice with Resize (Get clears a recycled slice up to
+   the length it was Put with: a caller that shrinks and then Puts leaves its bytes behind) *)
+Fixpoint grows_only (mincap : nat) (s : bstate) (es : list bevent) : Prop :=
+  match es with
+  | [] => True
+  | e :: es' => grows s e /\
+                match bstep mincap s e with Some s' => grows_only mincap s' es' | None => True end
   end.
 
 (* any initial heap content: nothing a caller sees may depend on it *)
@@ -572,12 +614,15 @@ Definition binit (h0 : bufid -> content) : bstate := mkB h0 [] 0 (fun _ => None)
 Definition visible (s : bstate) (t : nat) : list N :=
   match b_held s t with Some sl => rd (b_heap s (sl_buf sl)) 0 (sl_len sl) | None => [] end.
 
-(* what caller t appended since its last Get (from the schedule alone) *)
+(* what caller t appended since its last Get (from the schedule alone); growing with Resize
+   adds zeroes *)
 Fixpoint appended (t : nat) (es : list bevent) (acc : list N) : list N :=
   match es with
   | [] => acc
   | BGet t' _ _ :: es' => appended t es' (if t' =? t then [] else acc)
   | BAppend t' d :: es' => appended t es' (if t' =? t then acc ++ d else acc)
+  | BResize t' n :: es' =>
+      appended t es' (if t' =? t then firstn n acc ++ repeat 0%N (n - length acc) else acc)
   | BPut t' :: es' => appended t es' (if t' =? t then [] else acc)
   end.
 
